@@ -8,14 +8,17 @@ import PegVerif.Proofs.DiagWitness
   the real generator by T-diag (`bin/tdiag.py`, ordered warning lines, strict / non-strict error).
   Spec (Model/Diag.lean, Part 2): `Reachable`, `UndefinedIn`, `MustConsume`, `FirstRef`, `LeftRec`
   (and the coarser `LeftRecW`).  `G := (linkGrammar rules).G` is the tree after `link`: the user's
-  rules (bodies wrapped), then a `nil` stub per undefined name / `PegText`, and one rule per action.
+  rules (bodies wrapped), then a `nil` stub per undefined name / `PegText`, and one rule per action;
+  `(linkGrammar rules).referenced` are the names `link` recorded in `t.referenced` (every name some
+  expression refers to: `referenced_iff`).
 
   Results for ALL grammars (no bound on size):
     duplicates  : `duplicate_iff`, `duplicate_diagnosed`, `duplicate_diagnosed'`          (full)
     strict      : `strict_fails_iff`, `strict_error`, `lax_error`, `silent_iff`, `silent_spec` (full)
     unused      : `unused_exact`, `unused_exact_front`                                     (full)
-    undefined   : `undefined_exact` — with the exception `n ≠ "PegText"`, which is what the code does;
-                  the statement without the exception is refuted (`undefined_pegtext_false`)
+    undefined   : `undefined_exact`, `undefined_literal`                                    (full; also
+                  for the name `PegText`: `undefined_pegtext`, and a grammar that only captures stays
+                  silent: `capture_only_silent`)
     left rec.   : `leftrec_complete`     every left-recursive rule is warned                 (full)
                   `leftrec_exists_iff`   some warning ⇔ some rule is left recursive          (full; this
                                           is the property text: "reports … exactly when some rule …")
@@ -76,7 +79,7 @@ theorem strict_error (rules : List Rule) :
   cases h : (firstPass rules).2 with
   | none =>
     simp only [diagnostics_of_nodup h, DiagResult.error]
-    cases hd : (grammarDiags (linkGrammar rules).G).isEmpty <;> simp
+    cases hd : (grammarDiags (linkGrammar rules).G (linkGrammar rules).referenced).isEmpty <;> simp
   | some n => simp [diagnostics_of_dup h, DiagResult.error]
 
 /-- without `-strict`, only a duplicate makes `Compile` fail -/
@@ -92,7 +95,7 @@ theorem silent_iff (rules : List Rule) :
   cases h : (firstPass rules).2 with
   | none =>
     simp only [diagnostics_of_nodup h, DiagResult.error, DiagResult.werr, DiagResult.warnings]
-    cases hd : grammarDiags (linkGrammar rules).G with
+    cases hd : grammarDiags (linkGrammar rules).G (linkGrammar rules).referenced with
     | nil => simp [String.intercalate]
     | cons d ds => simp
   | some n => simp [diagnostics_of_dup h, DiagResult.error]
@@ -133,42 +136,63 @@ theorem unused_exact_front {rules : List Rule} {r0 : Rule} {rs : List Rule} (hru
 
 /-! ## used but not defined -/
 
+/-- `t.referenced` after `link`: the names that some rule mentions (at any place, reachable or not). -/
+theorem referenced_spec {rules : List Rule} (hdup : (diagnostics rules).dupError = none)
+    (hfront : FrontRules rules) (n : String) :
+    n ∈ (linkGrammar rules).referenced ↔ ∃ r, r ∈ rules ∧ Mentions r.body n :=
+  referenced_iff ((firstPass_dup_none rules).mpr ((duplicate_iff rules).mp hdup)) hfront n
+
 /-- "used but not defined" is reported for exactly the names that are mentioned by some rule —
-    reachable or NOT — and are not the name of a rule; except that the name `PegText` is never
-    reported (the emission loop skips it: `element.String() != "PegText"`).
+    reachable or NOT — and are not the name of a rule.  This includes the name `PegText`: the stub
+    `link` creates for a capture `<…>` is reported iff some expression refers to it.
     Side conditions: the rules come from the front end (no `inl` node), and `n` is not of the
     form `Action<k>` (names `link` itself creates). -/
 theorem undefined_exact {rules : List Rule} (hdup : (diagnostics rules).dupError = none)
     (hfront : FrontRules rules) {n : String} (hn : ¬ isAct n) :
-    ("rule '" ++ n ++ "' used but not defined") ∈ (diagnostics rules).warnings ↔
-      UndefinedIn rules n ∧ n ≠ "PegText" := by
+    ("rule '" ++ n ++ "' used but not defined") ∈ (diagnostics rules).warnings ↔ UndefinedIn rules n := by
   have hd : (firstPass rules).2 = none := (firstPass_dup_none rules).mpr ((duplicate_iff rules).mp hdup)
   have := render_mem_warnings (diagnostics rules) (.undefinedRule n)
   rw [render_undefined] at this
   rw [this, diagnostics_of_nodup hd]
   simp only [mem_grammarDiags_undefined]
   have hs := stub_iff hd hfront hn
+  have href := referenced_iff hd hfront n
   constructor
-  · rintro ⟨ru, hru, hb, hnm, hpt⟩
-    obtain ⟨h1, r, hr, hw⟩ := hs.mp ⟨ru, hru, hb, hnm⟩
-    refine ⟨⟨⟨r, hr, ?_⟩, h1⟩, hpt⟩
-    rcases hw with hw | ⟨hw, _⟩
-    · exact (mentions_iff_refs _ _).mpr hw
-    · exact absurd hw hpt
-  · rintro ⟨⟨⟨r, hr, hm⟩, h1⟩, hpt⟩
+  · rintro ⟨ru, hru, hb, hnm, hrf⟩
+    obtain ⟨h1, _⟩ := hs.mp ⟨ru, hru, hb, hnm⟩
+    exact ⟨href.mp hrf, h1⟩
+  · rintro ⟨⟨r, hr, hm⟩, h1⟩
     obtain ⟨ru, hru, hb, hnm⟩ := hs.mpr ⟨h1, r, hr, Or.inl ((mentions_iff_refs _ _).mp hm)⟩
-    exact ⟨ru, hru, hb, hnm, hpt⟩
+    exact ⟨ru, hru, hb, hnm, href.mpr ⟨r, hr, hm⟩⟩
 
-/-- The statement WITHOUT the `PegText` exception (the literal reading of the property) is false for
-    the code as it is: `R0 <- PegText` mentions an undefined name and nothing is reported. -/
-theorem undefined_pegtext_false :
-    ¬ ∀ (rules : List Rule) (n : String), (diagnostics rules).dupError = none → FrontRules rules → ¬ isAct n →
-      (("rule '" ++ n ++ "' used but not defined") ∈ (diagnostics rules).warnings ↔ UndefinedIn rules n) := by
-  intro h
-  have hact : ¬ isAct "PegText" := pegText_not_act
-  have := (h [⟨"R0", 0, .name "PegText"⟩] "PegText" (by decide) (by intro r hr; simp at hr; subst hr; rfl) hact).mpr
-    ⟨⟨_, List.mem_cons_self, .name _⟩, by intro r hr; simp at hr; subst hr; decide⟩
-  revert this
+/-- The literal reading of the property, for all grammars and all names at once (this is the
+    statement that was false before the repair of F-C15-1, witness `R0 <- PegText`). -/
+theorem undefined_literal :
+    ∀ (rules : List Rule) (n : String), (diagnostics rules).dupError = none → FrontRules rules → ¬ isAct n →
+      (("rule '" ++ n ++ "' used but not defined") ∈ (diagnostics rules).warnings ↔ UndefinedIn rules n) :=
+  fun _ _ hdup hfront hn => undefined_exact hdup hfront hn
+
+/-- `PegText` is a name like any other: reported iff mentioned and not defined — whether or not
+    the grammar has captures. -/
+theorem undefined_pegtext {rules : List Rule} (hdup : (diagnostics rules).dupError = none)
+    (hfront : FrontRules rules) :
+    "rule 'PegText' used but not defined" ∈ (diagnostics rules).warnings ↔ UndefinedIn rules "PegText" :=
+  undefined_exact (n := "PegText") hdup hfront pegText_not_act
+
+/-- `R0 <- PegText` (the replay of F-C15-1) is reported, and fails under `-strict` -/
+example : (diagnostics [⟨"R0", 0, .name "PegText"⟩]).warnings = ["rule 'PegText' used but not defined"] ∧
+    (diagnostics [⟨"R0", 0, .name "PegText"⟩]).strictFails = true := by decide
+/-- … also when a capture created the stub first, or creates it later -/
+example : (diagnostics [⟨"R0", 0, .seq [.push (.chr 97) "", .name "R1"]⟩, ⟨"R1", 1, .name "PegText"⟩]).warnings =
+    ["rule 'PegText' used but not defined"] := by decide
+example : (diagnostics [⟨"R0", 0, .seq [.name "PegText", .name "U"]⟩, ⟨"R1", 1, .push (.chr 97) ""⟩]).warnings =
+    ["rule 'R1' defined but not used", "rule 'PegText' used but not defined", "rule 'U' used but not defined"] := by
+  decide
+/-- a grammar that only captures is silent; so is one that defines `PegText` itself -/
+theorem capture_only_silent :
+    (diagnostics [⟨"R0", 0, .push (.chr 97) ""⟩]).warnings = [] ∧
+    (diagnostics [⟨"R0", 0, .push (.chr 97) ""⟩]).strictFails = false := by decide
+example : (diagnostics [⟨"R0", 0, .seq [.push (.chr 97) "", .name "PegText"]⟩, ⟨"PegText", 1, .chr 98⟩]).warnings = [] := by
   decide
 
 /-! ## possible infinite left recursion -/
@@ -183,7 +207,7 @@ theorem leftrec_complete {rules : List Rule} (hdup : (diagnostics rules).dupErro
   have := render_mem_warnings (diagnostics rules) (.leftRec n)
   rw [render_leftRec] at this
   rw [this, diagnostics_of_nodup hd]
-  exact (mem_grammarDiags_leftRec _ _).mpr (recWarnings_complete h)
+  exact (mem_grammarDiags_leftRec _ _ _).mpr (recWarnings_complete h)
 
 /-- SOUND, weak form (per rule): every reported rule lies on a cycle of references in
     syntactically-first position (`LeftRecW` ⊇ `LeftRec`). -/
@@ -195,7 +219,7 @@ theorem leftrec_sound_weak {rules : List Rule} (hdup : (diagnostics rules).dupEr
   have := render_mem_warnings (diagnostics rules) (.leftRec n)
   rw [render_leftRec] at this
   rw [this, diagnostics_of_nodup hd] at h
-  exact recWarnings_weak hu ((mem_grammarDiags_leftRec _ _).mp h)
+  exact recWarnings_weak hu ((mem_grammarDiags_leftRec _ _ _).mp h)
 
 theorem leftRec_sub_leftRecW {G : Grammar} {n : String} (h : LeftRec G n) : LeftRecW G n := h.weak
 
@@ -219,55 +243,85 @@ theorem leftrec_exists_iff {rules : List Rule} (hdup : (diagnostics rules).dupEr
     have := render_mem_warnings (diagnostics rules) (.leftRec n)
     rw [render_leftRec] at this
     rw [this, diagnostics_of_nodup hd] at h
-    have hn := (mem_grammarDiags_leftRec _ _).mp h
+    have hn := (mem_grammarDiags_leftRec _ _ _).mp h
     exact recWarnings_exists hu (by intro h0; rw [h0] at hn; cases hn)
   · rintro ⟨n, h⟩
     exact ⟨n, leftrec_complete hdup h⟩
 
 /-- A grammar generates silently (also under `-strict`) iff it has no duplicate, no left-recursive
-    rule, no stub other than `PegText`, and every rule with a body is reachable. -/
+    rule, no stub that an expression refers to (the only stub nothing refers to is the `PegText` of
+    a grammar that captures: `silent_spec_front`), and every rule with a body is reachable. -/
 theorem silent_spec {rules : List Rule} {first : Rule} {rest : List Rule}
     (hdup : (diagnostics rules).dupError = none) (hu : (linkGrammar rules).G.Uniq)
     (hfirst : (linkGrammar rules).G.rules = first :: rest) :
     (diagnostics rules).warnings = [] ↔
       (∀ n, ¬ LeftRec (linkGrammar rules).G n) ∧
-      (∀ ru, ru ∈ (linkGrammar rules).G.rules → ru.body = .nil → ru.name = "PegText") ∧
+      (∀ ru, ru ∈ (linkGrammar rules).G.rules → ru.body = .nil → ru.name ∉ (linkGrammar rules).referenced) ∧
       (∀ ru, ru ∈ (linkGrammar rules).G.rules → ru.body ≠ .nil → Reachable (linkGrammar rules).G first.name ru.name) := by
   have hd : (firstPass rules).2 = none := (firstPass_dup_none rules).mpr ((duplicate_iff rules).mp hdup)
   constructor
   · intro hw
-    have hnone : ∀ d : Diag, d ∉ grammarDiags (linkGrammar rules).G := by
+    have hnone : ∀ d : Diag, d ∉ grammarDiags (linkGrammar rules).G (linkGrammar rules).referenced := by
       intro d hdm
       have := (render_mem_warnings (diagnostics rules) d).mpr (by rw [diagnostics_of_nodup hd]; exact hdm)
       rw [hw] at this; cases this
     refine ⟨fun n h => ?_, fun ru hru hb => ?_, fun ru hru hb => ?_⟩
-    · exact hnone _ ((mem_grammarDiags_leftRec _ _).mpr (recWarnings_complete h))
-    · apply Classical.byContradiction
-      intro hne
-      exact hnone _ ((mem_grammarDiags_undefined _ _).mpr ⟨ru, hru, hb, rfl, hne⟩)
+    · exact hnone _ ((mem_grammarDiags_leftRec _ _ _).mpr (recWarnings_complete h))
+    · intro href
+      exact hnone _ ((mem_grammarDiags_undefined _ _ _).mpr ⟨ru, hru, hb, rfl, href⟩)
     · apply Classical.byContradiction
       intro hnr
-      refine hnone _ ((mem_grammarDiags_unused _ ru.name).mpr ⟨ru, hru, hb, rfl, fun h => hnr ?_⟩)
+      refine hnone _ ((mem_grammarDiags_unused _ _ ru.name).mpr ⟨ru, hru, hb, rfl, fun h => hnr ?_⟩)
       exact ((reached_iff hfirst _).mp h).1
   · rintro ⟨h1, h2, h3⟩
-    have : grammarDiags (linkGrammar rules).G = [] := by
-      cases hg : grammarDiags (linkGrammar rules).G with
+    have : grammarDiags (linkGrammar rules).G (linkGrammar rules).referenced = [] := by
+      cases hg : grammarDiags (linkGrammar rules).G (linkGrammar rules).referenced with
       | nil => rfl
       | cons d ds =>
-        have hdm : d ∈ grammarDiags (linkGrammar rules).G := by simp [hg]
+        have hdm : d ∈ grammarDiags (linkGrammar rules).G (linkGrammar rules).referenced := by simp [hg]
         cases d with
         | leftRec n =>
-          have hn := (mem_grammarDiags_leftRec _ _).mp hdm
+          have hn := (mem_grammarDiags_leftRec _ _ _).mp hdm
           obtain ⟨x, hx⟩ := recWarnings_exists hu (by intro h0; rw [h0] at hn; cases hn)
           exact absurd hx (h1 x)
         | undefinedRule n =>
-          obtain ⟨ru, hru, hb, hn, hpt⟩ := (mem_grammarDiags_undefined _ _).mp hdm
-          exact absurd (hn ▸ h2 ru hru hb) hpt
+          obtain ⟨ru, hru, hb, hn, href⟩ := (mem_grammarDiags_undefined _ _ _).mp hdm
+          exact absurd (hn ▸ href) (h2 ru hru hb)
         | unusedRule n =>
-          obtain ⟨ru, hru, hb, hn, hnr⟩ := (mem_grammarDiags_unused _ _).mp hdm
+          obtain ⟨ru, hru, hb, hn, hnr⟩ := (mem_grammarDiags_unused _ _ _).mp hdm
           obtain ⟨r', hr'⟩ := find_of_mem hru
           exact absurd ((reached_iff hfirst n).mpr ⟨hn ▸ h3 ru hru hb, ⟨r', hn ▸ hr'⟩⟩) hnr
     simp [diagnostics_of_nodup hd, DiagResult.warnings, this]
+
+/-- `silent_spec` for the rules of the front end, in terms of the user's grammar: the second
+    condition says that no rule mentions the name of a stub — i.e. nothing is undefined; a stub that
+    nothing mentions can only be the `PegText` a capture made. -/
+theorem silent_spec_front {rules : List Rule} {first : Rule} {rest : List Rule}
+    (hdup : (diagnostics rules).dupError = none) (hu : (linkGrammar rules).G.Uniq)
+    (hfront : FrontRules rules) (hfirst : (linkGrammar rules).G.rules = first :: rest) :
+    (diagnostics rules).warnings = [] ↔
+      (∀ n, ¬ LeftRec (linkGrammar rules).G n) ∧
+      (∀ ru, ru ∈ (linkGrammar rules).G.rules → ru.body = .nil → ∀ r, r ∈ rules → ¬ Mentions r.body ru.name) ∧
+      (∀ ru, ru ∈ (linkGrammar rules).G.rules → ru.body ≠ .nil → Reachable (linkGrammar rules).G first.name ru.name) := by
+  rw [silent_spec hdup hu hfirst]
+  have href := referenced_spec hdup hfront
+  constructor
+  · rintro ⟨h1, h2, h3⟩
+    exact ⟨h1, fun ru hru hb r hr hm => h2 ru hru hb ((href _).mpr ⟨r, hr, hm⟩), h3⟩
+  · rintro ⟨h1, h2, h3⟩
+    refine ⟨h1, fun ru hru hb hmem => ?_, h3⟩
+    obtain ⟨r, hr, hm⟩ := (href _).mp hmem
+    exact h2 ru hru hb r hr hm
+
+/-- a stub that no rule mentions is the `PegText` of a capture (not an `Action<k>` name) -/
+theorem unreferenced_stub_is_pegtext {rules : List Rule} (hdup : (diagnostics rules).dupError = none)
+    (hfront : FrontRules rules) {ru : Rule} (hru : ru ∈ (linkGrammar rules).G.rules) (hb : ru.body = .nil)
+    (hact : ¬ isAct ru.name) (hno : ∀ r, r ∈ rules → ¬ Mentions r.body ru.name) : ru.name = "PegText" := by
+  have hd : (firstPass rules).2 = none := (firstPass_dup_none rules).mpr ((duplicate_iff rules).mp hdup)
+  obtain ⟨_, r, hr, hw⟩ := (stub_iff hd hfront hact).mp ⟨ru, hru, hb, rfl⟩
+  rcases hw with hw | ⟨hw, _⟩
+  · exact absurd ((mentions_iff_refs _ _).mpr hw) (hno r hr)
+  · exact hw
 
 /-! ## per-rule soundness against `LeftRec` is false for the code as it is
 
@@ -331,7 +385,8 @@ example : (diagnostics [⟨"R0", 0, .alt [.chr 97, .seq [.name "E", .peekNot (.n
                         ⟨"E", 1, .query (.chr 98)⟩]).warnings =
     ["possible infinite left recursion in rule 'R0'"] := by decide
 
-/-- unreachable rule with an action and an undefined name; `PegText` is appended silently -/
+/-- unreachable rule with an action and an undefined name; `PegText` is appended silently (a
+    capture, no reference) -/
 def mixRules : List Rule :=
   [⟨"R0", 0, .push (.chr 97) ""⟩, ⟨"R1", 1, .seq [.act "x", .name "U"]⟩]
 example : (diagnostics mixRules).warnings =
@@ -357,7 +412,12 @@ end PegVerif.C15
 #print axioms PegVerif.C15.unused_exact
 #print axioms PegVerif.C15.unused_exact_front
 #print axioms PegVerif.C15.undefined_exact
-#print axioms PegVerif.C15.undefined_pegtext_false
+#print axioms PegVerif.C15.undefined_literal
+#print axioms PegVerif.C15.undefined_pegtext
+#print axioms PegVerif.C15.referenced_spec
+#print axioms PegVerif.C15.capture_only_silent
+#print axioms PegVerif.C15.silent_spec_front
+#print axioms PegVerif.C15.unreferenced_stub_is_pegtext
 #print axioms PegVerif.C15.leftrec_complete
 #print axioms PegVerif.C15.leftrec_sound_weak
 #print axioms PegVerif.C15.leftrec_sound_partial
